@@ -317,3 +317,10 @@ def run(ctx: Ctx, rep: Report, tier: str):
     from rules.C15 import C15 as _C15
     _alias(rep, ["C15.R2"], "C17.A12", "aging is decided and acted on atomically: picking the aged entry (state.change(aging)) and syncing it share one lock region (C15.R2), "
            "so a fresh notification cannot slip in between the age test and the transfer", 1, lambda: _C15(ctx, rep).r2(), keep=lambda i: i.key.endswith("SyncManager.do"))
+    from rules.common import parent_first_priorities
+    rep.rule("C17.A13", "only the application's prioritize() makes an entry 'immediate': the engine's own priority arithmetic (gentle punt behind a changed parent) never turns a "
+             "priority >= 0 into a negative one (C01.R8) - negative priorities skip ageing", 2)
+    parent_first_priorities(ctx, rep, "C17.A13")
+    from rules.common import event_application_writes_through
+    _alias(rep, ["C17.tmp"], "C17.A14", "every notification restarts the ageing clock: update_entry stamps the side changed whenever it is asked to, also when a change is already "
+           "pending (C14.W11)", 1, lambda: (rep.rule("C17.tmp", "alias", 0), event_application_writes_through(ctx, rep, "C17.tmp")), keep=lambda i: i.key == "update_entry|mark_changed")
